@@ -18,6 +18,13 @@ def main():
         muts, total = SV.generic_mutants(tree, sorted(rep.analysed), 0, 10 ** 6)
         with ProcessPoolExecutor(max_workers=16) as ex:
             res = list(ex.map(SV._generic_job, [(prop, tree.files, p, s) for p, d, s in muts], chunksize=4))
+        import json, shutil
+        d = f"/tmp/mutants/{prop}"
+        shutil.rmtree(d, ignore_errors=True)
+        os.makedirs(d)
+        for n, ((p, desc, srcx), r) in enumerate(zip(muts, res)):
+            if r["status"] == "clean":
+                json.dump({"path": p, "desc": desc, "src": srcx}, open(f"{d}/{n:04d}.json", "w"))
         with open(f"/tmp/mutscore_{prop}.txt", "w") as f:
             k = sum(1 for r in res if r["status"] == "violation")
             e = sum(1 for r in res if r["status"] == "analysis-error")
